@@ -158,6 +158,14 @@ class Run:
             loop = ensure_loop()
 
             async def go():
+                if program["stale_waiter"] == "subscribe_async":
+                    # ... or listened (taking) inside a `with` block that was left through an exception
+                    try:
+                        with self.sess.http_message_handler.subscribe_async(("*",), take=True) as get_flow:
+                            await asyncio.wait_for(get_flow(), 0.01)
+                    except asyncio.TimeoutError:
+                        pass
+                    return
                 fut = self.sess.http_message_handler.wait_for(("*",), timeout=0.01, take=True)
                 fut.cancel()
                 await asyncio.sleep(0.05)
@@ -415,6 +423,13 @@ def state_law(desc):
         f = w.make_flow(desc["method"], url, body=desc["body"], metadata={"request_injected": desc["req_inj"], "from_browser": desc["browser"]})
         flow = HippoHTTPFlow.from_state(f.get_state(), w.sm)
         flow.cap_data = w.sm.resolve_cap(url) if typ != CapType.TEMPORARY else w.sm.resolve_cap(url)
+        attrib = desc.get("attrib", "resolved")
+        if attrib == "session_only":
+            # what the login response handler attaches: the new session, no region yet
+            flow.cap_data = CapData("LoginRequest", session=weakref.ref(sess))
+        elif attrib == "no_url":
+            # what the proxy attaches to a scripted object's reply: session and region, no URL
+            flow.cap_data = CapData(cap_name="FirestormBridge", region=weakref.ref(region), session=weakref.ref(sess))
         flow.can_stream = desc["can_stream"]
         if desc["rewrite"]:
             flow.request.url = url + "&moved=1" if "?" in url else url + "?moved=1"
@@ -457,6 +472,7 @@ STATE_DESC = st.fixed_dictionaries({
     "suffix": st.sampled_from(["", "/x", "?a=b"]), "method": st.sampled_from(["GET", "POST"]), "body": st.binary(max_size=20),
     "req_inj": st.booleans(), "browser": st.booleans(), "can_stream": st.booleans(), "rewrite": st.booleans(), "inject": st.booleans(),
     "status": st.sampled_from([200, 307, 404, 500]), "resp_body": st.binary(max_size=20),
+    "attrib": st.sampled_from(["resolved", "resolved", "resolved", "session_only", "no_url"]),
 })
 
 
@@ -525,6 +541,7 @@ def single_programs():
     for kind in FLOW_KINDS:
         yield {"kind": kind, "faults": []}
         yield {"kind": kind, "faults": [], "stale_waiter": True}
+        yield {"kind": kind, "faults": [], "stale_waiter": "subscribe_async"}
         for point in POINTS:
             behaviours = HOOK_BEHAVIOURS if point[0] == "hook" else ["raise"]
             for b in behaviours:
@@ -547,7 +564,7 @@ PROGRAM = st.fixed_dictionaries({
     "faults": st.lists(st.tuples(st.sampled_from(POINTS).map(list), st.sampled_from(HOOK_BEHAVIOURS)), max_size=3, unique_by=lambda t: tuple(t[0])).map(
         lambda l: [[p, (b if p[0] == "hook" else "raise")] for p, b in l]),
     "later": st.integers(0, 3), "status": st.sampled_from([200, 200, 404, 499]), "request_injected": st.booleans(), "from_browser": st.booleans(),
-    "logger": st.booleans(), "stale_waiter": st.integers(0, 7).map(lambda i: i == 0), "pending_at": st.integers(0, 2),
+    "logger": st.booleans(), "stale_waiter": st.integers(0, 11).map(lambda i: {0: True, 1: "subscribe_async"}.get(i, False)), "pending_at": st.integers(0, 2),
 })
 
 
